@@ -1,0 +1,99 @@
+//go:build verif
+
+package fzf
+
+import (
+	"fmt"
+	"reflect"
+	"sort"
+	"strings"
+)
+
+// VerifDumpOptions renders every field of a parsed Options value (unexported ones included, pointers
+// followed, maps sorted, functions reduced to nil / non-nil) as a canonical string, so that two parses
+// can be compared as a whole. Verification hook (build tag verif), no logic of fzf's own.
+func VerifDumpOptions(opts *Options) string {
+	var b strings.Builder
+	verifDump(&b, reflect.ValueOf(opts), 0)
+	return b.String()
+}
+
+func verifDump(b *strings.Builder, v reflect.Value, depth int) {
+	if depth > 12 {
+		b.WriteString("<deep>")
+		return
+	}
+	switch v.Kind() {
+	case reflect.Invalid:
+		b.WriteString("<invalid>")
+	case reflect.Ptr, reflect.Interface:
+		if v.IsNil() {
+			b.WriteString("nil")
+			return
+		}
+		b.WriteString("&")
+		verifDump(b, v.Elem(), depth+1)
+	case reflect.Struct:
+		t := v.Type()
+		if t.PkgPath() == "regexp" {
+			fmt.Fprintf(b, "regexp(%v)", v.Addr().MethodByName("String"))
+			return
+		}
+		b.WriteString(t.Name() + "{")
+		for i := 0; i < v.NumField(); i++ {
+			if t.Field(i).Name == "Printer" || t.Field(i).Name == "Input" || t.Field(i).Name == "Output" {
+				continue
+			}
+			b.WriteString(t.Field(i).Name + ":")
+			verifDump(b, v.Field(i), depth+1)
+			b.WriteString(";")
+		}
+		b.WriteString("}")
+	case reflect.Slice, reflect.Array:
+		if v.Kind() == reflect.Slice && v.IsNil() {
+			b.WriteString("nil[]")
+			return
+		}
+		b.WriteString("[")
+		for i := 0; i < v.Len(); i++ {
+			verifDump(b, v.Index(i), depth+1)
+			b.WriteString(",")
+		}
+		b.WriteString("]")
+	case reflect.Map:
+		keys := []string{}
+		vals := map[string]reflect.Value{}
+		for _, k := range v.MapKeys() {
+			var kb strings.Builder
+			verifDump(&kb, k, depth+1)
+			keys = append(keys, kb.String())
+			vals[kb.String()] = v.MapIndex(k)
+		}
+		sort.Strings(keys)
+		b.WriteString("map[")
+		for _, k := range keys {
+			b.WriteString(k + "=>")
+			verifDump(b, vals[k], depth+1)
+			b.WriteString(",")
+		}
+		b.WriteString("]")
+	case reflect.Func, reflect.Chan, reflect.UnsafePointer:
+		if v.IsNil() {
+			b.WriteString("nilfunc")
+		} else {
+			b.WriteString("func")
+		}
+	case reflect.String:
+		fmt.Fprintf(b, "%q", v.String())
+	case reflect.Bool:
+		fmt.Fprintf(b, "%v", v.Bool())
+	case reflect.Int, reflect.Int8, reflect.Int16, reflect.Int32, reflect.Int64:
+		fmt.Fprintf(b, "%d", v.Int())
+	case reflect.Uint, reflect.Uint8, reflect.Uint16, reflect.Uint32, reflect.Uint64, reflect.Uintptr:
+		fmt.Fprintf(b, "%d", v.Uint())
+	case reflect.Float32, reflect.Float64:
+		fmt.Fprintf(b, "%v", v.Float())
+	default:
+		b.WriteString("<" + v.Kind().String() + ">")
+	}
+}
